@@ -249,37 +249,41 @@ def mkEnv (d : Drv) (delayTicks : Nat) (fc inc : Bool) : Env :=
       | none => false,
     isUpper := fun k => d.uppers.contains k, forceCaps := fc, incremental := inc }
 
-/-- fold the application's reactions into the token stream of one chunk -/
-def reactOuts (core : Core) (mode : String) (cv : Canvas) (app : Option App) (outs : List Out) :
-    Canvas × Option App × List String :=
-  outs.foldl (fun (acc : Canvas × Option App × List String) o =>
-    -- driver-side guard (hostile streams): areas beyond 2^22 pixels are not painted (the real client would need gigabytes;
-    -- such sessions never query the screen)
+/-- paint the callbacks of one chunk (no application attached).
+    Driver-side guard (hostile streams): areas beyond 2^22 pixels / coordinates beyond 4096 are not painted (the real
+    client would need gigabytes; such sessions never query the screen) -/
+def paintOuts (mode : String) (cv : Canvas) (outs : List Out) : Canvas :=
+  outs.foldl (fun (cv : Canvas) o =>
     let big : Bool := match o with
       | .fill x y w h _ => decide (w.toNat * h.toNat > 4194304 ∨ x.toNat + w.toNat > 4096 ∨ y.toNat + h.toNat > 4096)
       | .update x y w h _ => decide (w.toNat * h.toNat > 4194304 ∨ x.toNat + w.toNat > 4096 ∨ y.toNat + h.toNat > 4096)
       | .desktop w h => decide (w > 4096 ∨ h > 4096)
       | _ => false
-    let cv := if big then acc.1 else applyOut mode acc.1 o
-    match acc.2.1 with
-    | none => (cv, none, acc.2.2 ++ [outTok o])
-    | some a =>
-      let (a', acts) := match o with
-        | .made => onConnected core cv.screen a
-        | .commit _ => onCommit core cv.screen a
-        | _ => (a, [])
-      ({ cv with ptrX := a'.ptr.x, ptrY := a'.ptr.y }, some a', acc.2.2 ++ [outTok o] ++ acts.map actTok)) (cv, app, [])
+    if big then cv else applyOut mode cv o) cv
+
+def evTok : Ev → String
+  | .out o => outTok o
+  | .act a => actTok a
 
 def doRfbRecv (d : Drv) (args : List String) : Drv × String :=
   match d.rfb, args with
   | some st, [h] =>
     match bytesOfHex h with
     | some chunk =>
-      let r := feed rfbMachine st chunk
-      let (cv, app, toks) := reactOuts r.1.s.core r.1.s.core.imageMode d.cv d.app r.2.1
-      let toks := toks ++ (if r.2.2 then [] else ["diverged"])
-      ({ d with rfb := some r.1, cv := freezeCv cv, app := app },
-        s!"buf={r.1.buf.length} " ++ (if toks.isEmpty then "-" else " ".intercalate toks))
+      match d.app with
+      | some a =>
+        -- an application is attached: the whole client is ONE machine (VncModel/System.lean); this is the object of
+        -- the theorems of VncProofs/System.lean
+        let r := feed sysMachine ⟨⟨st.s, d.cv, a⟩, st.buf⟩ chunk
+        let toks := r.2.1.map evTok ++ (if r.2.2 then [] else ["diverged"])
+        ({ d with rfb := some ⟨r.1.s.rfb, r.1.buf⟩, cv := freezeCv r.1.s.cv, app := some r.1.s.app },
+          s!"buf={r.1.buf.length} " ++ (if toks.isEmpty then "-" else " ".intercalate toks))
+      | none =>
+        let r := feed rfbMachine st chunk
+        let cv := paintOuts r.1.s.core.imageMode d.cv r.2.1
+        let toks := r.2.1.map outTok ++ (if r.2.2 then [] else ["diverged"])
+        ({ d with rfb := some r.1, cv := freezeCv cv },
+          s!"buf={r.1.buf.length} " ++ (if toks.isEmpty then "-" else " ".intercalate toks))
     | none => (d, "bad-op")
   | _, _ => (d, "bad-op")
 
@@ -515,19 +519,14 @@ def handleSt (d : Drv) (line : String) : Drv × String :=
   | ["app-fire"] =>
     match d.app, d.rfb with
     | some a, some st =>
-      let earliest (a : App) : Option (Nat × Nat) :=
-        a.timers.foldl (fun (best : Option (Nat × Nat)) t => match best with
-          | none => some t
-          | some b => if t.2 < b.2 then some t else some b) none
-      match earliest a with
+      match earliestTimer a with
       | none => (d, "no-timer")
-      | some (_, due) =>
+      | some _ =>
         -- exactly one timer per op (the harness pops one delayed call at a time, in Twisted's order: due time, then creation)
-        let id := match earliest a with | some (i, _) => i | none => 0
-        let a := { a with now := max a.now due }
-        let (a', acts) := onTimer st.s.core d.cv.screen a id
-        ({ d with app := some a', cv := { d.cv with ptrX := a'.ptr.x, ptrY := a'.ptr.y } },
-          s!"t={a'.now} " ++ (if acts.isEmpty then "-" else " ".intercalate (acts.map actTok)))
+        let r := sysFire ⟨⟨st.s, d.cv, a⟩, st.buf⟩
+        let acts := r.2.map evTok
+        ({ d with app := some r.1.s.app, cv := r.1.s.cv },
+          s!"t={r.1.s.app.now} " ++ (if acts.isEmpty then "-" else " ".intercalate acts))
     | _, _ => (d, "bad-op")
   | ["app-op", c] =>
     match d.app, d.rfb, parseCmdTok c with
